@@ -37,7 +37,7 @@ def _gen_script(ctx):
 def run(ctx) -> None:
     ctx.rule("C17.R1", "every definition derived from the model classes equals the published one (keywords, property order, required order)", floor=250)
     ctx.rule("C17.R3", "model classes carry no acceptance logic outside their declared fields (validators, __init__, aliases, config switches)", floor=60)
-    ctx.rule("C17.R2", "schema version literal = file-name suffix; get_version reaches it; generator writes exactly the four (prefix, root, config) files", floor=10)
+    ctx.rule("C17.R2", "schema version literal = file-name suffix; get_version reaches it; generator writes exactly the four (prefix, root, config) files; the strict/lax config reaches the root class and every op/type model", floor=16)
     prog = ctx.program
     tree, configs, calls, ws, gen_path = _gen_script(ctx)
 
@@ -172,8 +172,50 @@ def run(ctx) -> None:
                       f"model {name} and {p}_{version}.json disagree: " + "; ".join(diffs[:4]),
                       expected=json.dumps(pub_defs[name])[:500], found=json.dumps(mine[name])[:500])
     r3_no_hidden_acceptance_logic(ctx, SchemaDeriver(prog, None))
+    r4_config_plumbing(ctx)
     ctx.stats["C17 definitions compared"] = total
     ctx.stats["C17 files"] = sorted(f"{p}_{version}.json" for p, _, _ in files)
+
+
+def r4_config_plumbing(ctx) -> None:
+    """the strict / lax configuration must reach exactly the classes the derivation assumes: the ConfiguredBaseModel subclasses
+    defined in _serialization/ops.py and tys.py plus the root class itself"""
+    from ..tmpl import tseq, tsubseq, thas
+    prog = ctx.program
+    for mn, cname in (("hugr._serialization.serial_hugr", "SerialHugr"), ("hugr._serialization.testing_hugr", "TestingHugr")):
+        c = prog.cls(f"{mn}.{cname}")
+        m = c.methods.get("_pydantic_rebuild")
+        if m is None:
+            ctx.broken(f"anchor vanished: {cname}._pydantic_rebuild")
+        env = tsubseq(real_body(m), ["L_c = dict(ops_classes)", "L_c[cls.__name__] = cls", "model_rebuild(L_c, config=config, **kwargs)"])
+        ctx.check(env is not None, "C17.R2", f"{cname}._pydantic_rebuild: root class receives the configuration", c.module.path, m.lineno,
+                  f"{cname}._pydantic_rebuild must rebuild the op/type classes AND {cname} itself with the given config (my_classes[cls.__name__] = cls; "
+                  "model_rebuild(my_classes, config=config, **kwargs)): otherwise the root model keeps the default `extra` while the published schema says "
+                  "additionalProperties false/true", m)
+        ctx.check(thas(m, "config = config or ConfigDict()") or thas(m, "config or ConfigDict()"), "C17.R2", f"{cname}._pydantic_rebuild: default config", c.module.path, m.lineno, "", m)
+    tys = prog.module("hugr._serialization.tys")
+    mr = tys.functions.get("model_rebuild")
+    if mr is None:
+        ctx.broken("anchor vanished: hugr._serialization.tys.model_rebuild")
+    loops = [n for n in ast.walk(mr) if isinstance(n, ast.For)]
+    ok = len(loops) == 1 and u(loops[0].iter) == "classes.values()"
+    if ok:
+        lp = loops[0]
+        v = u(lp.target)
+        ok = tseq(lp.body, [f"if issubclass({v}, ConfiguredBaseModel):\n    {v}.update_model_config(config)\n    {v}.model_rebuild(**kwargs)"]) is not None
+    ctx.check(ok, "C17.R2", "tys.model_rebuild: every configured class is updated and rebuilt", tys.path, mr.lineno,
+              "model_rebuild must apply the config to every ConfiguredBaseModel subclass in the map and rebuild it", mr)
+    cb = tys.classes.get("ConfiguredBaseModel")
+    um = cb.methods.get("update_model_config") if cb else None
+    ok = um is not None and thas(um, "cls.model_config.update(config)")
+    ctx.check(ok, "C17.R2", "ConfiguredBaseModel.update_model_config", tys.path, um.lineno if um else 1, "", um)
+    ops = prog.module("hugr._serialization.ops")
+    for mod, want_plus in ((tys, False), (ops, True)):
+        v = mod.assigns.get("classes")
+        src = u(v) if v is not None else ""
+        ok = "inspect.getmembers(sys.modules[__name__], lambda member: inspect.isclass(member) and member.__module__ == __name__)" in src and (("+ tys_classes" in src) == want_plus)
+        ctx.check(ok, "C17.R2", f"{mod.name}.classes", mod.path, getattr(v, "lineno", 1),
+                  "the class list handed to model_rebuild must be all classes defined in this module" + (" plus those of tys" if want_plus else ""), v)
 
 
 def r3_no_hidden_acceptance_logic(ctx, d) -> None:
